@@ -99,8 +99,10 @@ def oracle(prog, obs):
     if obs.get("crashed"):
         return [("runner.run() let an exception escape: %s" % obs["crashed"], "run-crashed")]
     cfg = prog["cfg"]
-    if cfg.get("faults"):
-        return out
+    step_faults = set((h, str(k)) for h, k in cfg.get("faults", []))
+    if any(h not in ("before_step", "after_step") for h, _k in step_faults) or (step_faults and not all(
+            h in cfg.get("hooks", []) for h, _k in step_faults)):
+        return out          # faults in other hooks: C12
     res = results_of(obs)
     calls = {}
     for e in obs["log"]:
@@ -143,12 +145,20 @@ def oracle(prog, obs):
                 st = MAP[k]
                 if k == "pending" and wip:
                     st = "pending_warn"
-                if k != "undefined":
+                # a raising before_step hook keeps the step function from being called, a raising after_step hook comes after
+                # it; either way the step did not pass (hook_error) - the steps behind it are not run
+                if k != "undefined" and ("before_step", str(s["id"])) in step_faults:
+                    st = "hook_error"
+                elif k != "undefined":
                     exp_calls.append((k, s["id"]))
+                    if ("after_step", str(s["id"])) in step_faults:
+                        st = "hook_error"
                 exp.append(st)
                 if st in FAILING:
                     failed = True
                     running = bool(cfg.get("continue_after_failed"))
+                    if k == "skip" and ("before_step", str(s["id"])) not in step_faults:
+                        skipped = True      # (the step function did skip the scenario before its after_step hook raised)
                 elif k == "skip":
                     running = False
                     skipped = True
@@ -409,6 +419,26 @@ def suites(tier, seed):
         else:
             f = {"id": 1, "tags": [], "bg": None, "items": [{"kind": "rule", "id": 5, "tags": [], "bg": bg, "items": [outline]}]}
         cases.append({"features": [f], "cfg": cfg})
+    # a raising before_step / after_step hook around one step (mostly a passing one that is not the last)
+    extra = []
+    for i, c in enumerate(cases):
+        if i % 6 == 0 and not c["cfg"].get("faults") and not c["cfg"].get("dry_run"):
+            scs = [steps for _n, steps, _t in scenarios_of(c)]
+            scs = [st for st in scs if st]
+            if not scs:
+                continue
+            steps = rnd.choice(scs)
+            cand = [x for x in steps[:-1] if x["kind"] == "pass"] or steps
+            victim = rnd.choice(cand)
+            c2 = copy.deepcopy(c)
+            hooks = list(c2["cfg"].get("hooks", []))
+            which = rnd.choice(["after_step", "after_step", "before_step"])
+            if which not in hooks:
+                hooks.append(which)
+            c2["cfg"]["hooks"] = hooks
+            c2["cfg"]["faults"] = [[which, str(victim["id"])]]
+            extra.append(c2)
+    cases += extra
     # continue_after_failed_step switched on per scenario from the before_scenario hook instead of the class attribute
     for i, c in enumerate(cases):
         if c["cfg"].get("continue_after_failed") and "before_scenario" in c["cfg"].get("hooks", []) and i % 2:
